@@ -96,6 +96,8 @@ private:
 struct AllocLedger {
     std::mutex m;
     std::unordered_map<const void*, size_t> live; // address -> bytes
+    std::unordered_map<const void*, int> arena_of; // address -> arena (ArenaAllocator only)
+    int next_arena = 1;
     long allocs = 0, frees = 0;
     static AllocLedger& get() {
         static AllocLedger l;
@@ -104,6 +106,8 @@ struct AllocLedger {
     void reset() {
         std::lock_guard<std::mutex> g(m);
         live.clear();
+        arena_of.clear();
+        next_arena = 1;
         allocs = frees = 0;
     }
     size_t live_count() {
@@ -155,6 +159,67 @@ struct CountingAllocator {
     size_type max_size() const noexcept { return size_type(-1) / sizeof(T); }
     friend bool operator==(const CountingAllocator&, const CountingAllocator&) { return true; }
     friend bool operator!=(const CountingAllocator&, const CountingAllocator&) { return false; }
+};
+
+//! STATEFUL variant: every default-constructed allocator is its own arena (copies and rebinds keep the
+//! arena, allocators of different arenas compare unequal); a block must be returned through an allocator
+//! of the arena it came from. Containers that take an allocator instance must keep it with their nodes.
+template <class T>
+struct ArenaAllocator {
+    typedef T value_type;
+    typedef T* pointer;
+    typedef const T* const_pointer;
+    typedef T& reference;
+    typedef const T& const_reference;
+    typedef std::size_t size_type;
+    typedef std::ptrdiff_t difference_type;
+    template <class U>
+    struct rebind {
+        typedef ArenaAllocator<U> other;
+    };
+    int arena;
+    ArenaAllocator() noexcept {
+        AllocLedger& l = AllocLedger::get();
+        std::lock_guard<std::mutex> g(l.m);
+        arena = l.next_arena++;
+    }
+    ArenaAllocator(const ArenaAllocator& o) noexcept : arena(o.arena) {}
+    ArenaAllocator& operator=(const ArenaAllocator& o) noexcept {
+        arena = o.arena;
+        return *this;
+    }
+    template <class U>
+    ArenaAllocator(const ArenaAllocator<U>& o) noexcept : arena(o.arena) {}
+    T* allocate(std::size_t n, const void* = nullptr) {
+        T* p = static_cast<T*>(::operator new(n * sizeof(T)));
+        AllocLedger& l = AllocLedger::get();
+        std::lock_guard<std::mutex> g(l.m);
+        ++l.allocs;
+        l.live[p] = n * sizeof(T);
+        l.arena_of[p] = arena;
+        return p;
+    }
+    void deallocate(T* p, std::size_t n) noexcept {
+        AllocLedger& l = AllocLedger::get();
+        {
+            std::lock_guard<std::mutex> g(l.m);
+            ++l.frees;
+            auto it = l.live.find(p);
+            if (it == l.live.end()) pbt::fatal("alloc/free-unknown", "deallocate() of a block that is not live (double or foreign free)");
+            if (it->second != n * sizeof(T)) pbt::fatal("alloc/size-mismatch", "deallocate() with a size/type different from allocate()");
+            if (l.arena_of[p] != arena) pbt::fatal("alloc/wrong-allocator-instance", "block returned through an allocator instance (arena) other than the one it was obtained from");
+            l.live.erase(it);
+            l.arena_of.erase(p);
+        }
+        ::operator delete(p);
+    }
+    template <class U, class... A>
+    void construct(U* p, A&&... a) { ::new ((void*)p) U(std::forward<A>(a)...); }
+    template <class U>
+    void destroy(U* p) { p->~U(); }
+    size_type max_size() const noexcept { return size_type(-1) / sizeof(T); }
+    friend bool operator==(const ArenaAllocator& a, const ArenaAllocator& b) { return a.arena == b.arena; }
+    friend bool operator!=(const ArenaAllocator& a, const ArenaAllocator& b) { return a.arena != b.arena; }
 };
 
 } // namespace verif
